@@ -240,6 +240,9 @@ def main(seed, tier):
     ccs = sorted(table)
     specs = [("props.c06", "LuhnTask", (13,)), ("props.c06", "GetIndexTask", ())]
     specs += [("props.c06", "NatTask", (cc,)) for cc in ccs if cc != "DE"]
+    # the flag reaches the national check through every constructor: IBAN.from_bban(K, b, validate_bban=flag)
+    from props import c02
+    specs += [x for x in c02.from_bban_flag_specs([cc for cc in N.COUNTRIES_22 if cc in table]) if x[2][1] == table[x[2][0]]["bban_length"]]
     results = common.run_tasks(specs, seed, tier)
     missing = [cc for cc in N.COUNTRIES_22 if cc not in table]
     if missing:
